@@ -62,6 +62,35 @@ func TestVerifC19(t *testing.T) {
 		for _, factor := range factors {
 			base, factor := base, factor
 			scs = append(scs, hx.Scenario{Name: fmt.Sprintf("base=%d/factor=%d", base, factor), Run: func(c *hx.Ctx) {
+				c19config(c, base, factor, caps, attempts)
+				c.Sample(map[string]any{"base": base, "factor": factor, "caps": caps, "attempts": "0..80,100,1000,1e6,2^31-1,2^62,2^63-1"})
+			}})
+		}
+	}
+	// every small configuration: caps that are not multiples of the base, bases above the cap, ...
+	small := []int64{0, 1, 2, 3, 4, 5, 6, 7, 8, 9, 10, 40, 1 << 31, 1<<63 - 1}
+	for base := 1; base <= 12; base++ {
+		base := base
+		scs = append(scs, hx.Scenario{Name: fmt.Sprintf("small/base=%d", base), Run: func(c *hx.Ctx) {
+			var caps []int
+			for cp := 1; cp <= 64; cp++ {
+				caps = append(caps, cp)
+			}
+			for factor := 1; factor <= 5; factor++ {
+				c19config(c, base, factor, caps, small)
+			}
+			c.Sample(map[string]any{"base": base, "factors": "1..5", "caps": "1..64", "attempts": small})
+		}})
+	}
+	if hx.Main("C19", scs) == 2 {
+		t.Fatal("internal error")
+	}
+}
+
+func c19config(c *hx.Ctx, base, factor int, caps []int, attempts []int64) {
+	{
+		{
+			{
 				eb, ef := base, factor
 				if eb == 0 {
 					eb = 20
@@ -159,11 +188,7 @@ func TestVerifC19(t *testing.T) {
 						}
 					}
 				}
-				c.Sample(map[string]any{"base": base, "factor": factor, "caps": caps, "attempts": "0..80,100,1000,1e6,2^31-1,2^62,2^63-1"})
-			}})
+			}
 		}
-	}
-	if hx.Main("C19", scs) == 2 {
-		t.Fatal("internal error")
 	}
 }
